@@ -54,7 +54,84 @@ PSTRAT = {
 }
 MULTI = ["multivariate_normal", "dirichlet", "multinomial"]
 WRAPPED = ["tfp:Logistic", "tfp:Gumbel", "tfp:Pareto", "custom:shifted_exponential"]
-MODES = ["sample_shape", "vmap_keys", "modular_vmap", "gen_site", "kwargs", "vmap_mapped_params", "vmap_mapped_kwargs"]
+MODES = ["sample_shape", "vmap_keys", "modular_vmap", "gen_site", "kwargs", "vmap_mapped_params", "vmap_mapped_kwargs", "vmap_mapped_params_ss"]
+SS_K = 5  # per-lane sample_shape of the vmap_mapped_params_ss mode (lanes = n // SS_K, never equal to SS_K)
+
+# Parameters at the edge of the documented domain (deterministic sweep, log density / mass only, plus 'certain' samplers).
+# (distribution, positional args, values); references in float64 on the float32-rounded parameters.
+EDGE = [
+    ("flip", [0.0], [False, True]), ("flip", [1.0], [False, True]), ("flip", [1e-9], [False, True]), ("flip", [1e-4], [False, True]),
+    ("flip", [0.9999], [False, True]), ("flip", [0.9999999], [False, True]), ("flip", [3e-8], [False, True]),
+    ("bernoulli", [-25.0], [0, 1]), ("bernoulli", [25.0], [0, 1]), ("bernoulli", [-9.0], [0, 1]),
+    ("geometric", [-9.0], [0, 1, 50, 1000]), ("geometric", [9.0], [0, 1, 2]),
+    ("normal", [-3.0, 1000.0], "q"), ("normal", [0.0, 1e-3], "q"), ("normal", [10.0, 0.05], "q"),
+    ("exponential", [1e-3], "q"), ("exponential", [1e3], "q"),
+    ("uniform", [-1e-3, 1e-3], "q"), ("uniform", [100.0, 1100.0], "q"),
+    ("laplace", [50.0, 0.01], "q"), ("cauchy", [0.0, 0.01], "q"), ("half_normal", [0.01], "q"), ("half_normal", [300.0], "q"),
+    ("gamma", [0.05, 1.0], "q"), ("gamma", [60.0, 0.5], "q"), ("gamma", [2.0, 1e3], "q"),
+    ("beta", [0.2, 0.3], "q"), ("beta", [40.0, 1.5], "q"),
+    ("log_normal", [5.0, 0.05], "q"), ("student_t", [1.0, 0.0, 1.0], "q"), ("student_t", [80.0, 2.0, 0.1], "q"),
+    ("inverse_gamma", [20.0, 0.1], "q"), ("weibull", [0.6, 2.0], "q"), ("weibull", [12.0, 0.5], "q"), ("chi2", [0.7], "q"), ("chi2", [60.0], "q"),
+    ("poisson", [0.01], [0, 1, 2, 5]), ("poisson", [150.0], [100, 150, 151, 220]),
+    ("binomial", [60.0, -4.0], [0, 1, 5, 60]), ("binomial", [1.0, 2.0], [0, 1]), ("binomial", [40.0, 4.0], [30, 39, 40]),
+    ("negative_binomial", [0.3, -2.0], [0, 1, 7]), ("negative_binomial", [30.0, 1.5], [20, 100, 160]),
+    ("zipf", [1.2], [1, 2, 50]), ("zipf", [8.0], [1, 2, 3]),
+    ("categorical", [[0.0, -30.0, -30.0]], [0, 1, 2]), ("categorical", [[12.0, -12.0, 0.0, 0.0]], [0, 1, 2, 3]), ("categorical", [[-1000.0, -1001.0]], [0, 1]),
+]
+
+
+def edge_check(idx):
+    """-> (fails, case) for EDGE[idx]."""
+    import jax.numpy as jnp
+    import genjax
+    from genjax import seed
+
+    name, args, vals = EDGE[idx]
+    T = table()
+    e = T[name]
+    case = {"dist": name, "edge": idx, "args": args, "mode": "edge_logpdf"}
+    a32 = [np.asarray(a, dtype=np.float32) for a in args]
+    # the table's `ref` takes the strategy-level parameters; rebuild them from the positional ones
+    ps = [a.astype(np.float64).tolist() if a.ndim else float(a) for a in a32]
+    if name == "uniform":
+        ps = [ps[0], float(np.float32(args[1])) - ps[0]]
+    ref = e["ref"](ps)
+    dist = getattr(genjax.distributions, name)
+    fails = []
+    try:
+        if vals == "q":
+            qs = np.array([1e-6, 1e-3, 0.1, 0.5, 0.9, 0.999, 1 - 1e-6])
+            xs = np.unique(ref.ppf(qs).astype(np.float32))
+            xs = xs[np.isfinite(xs)]
+            rl = ref.logpdf(xs.astype(np.float64))
+            keep = np.isfinite(rl)
+            xs, rl = xs[keep], rl[keep]
+            jv = jnp.asarray(xs)
+        else:
+            ks = np.asarray(vals)
+            rl = ref.logpmf(ks.astype(np.int64))
+            jv = jnp.asarray(ks.astype(bool) if e["dtype"] == "bool" else ks.astype(np.dtype(e["dtype"])))
+        lp = np.asarray(impl(dist.logpdf, jv, *[jnp.asarray(a) for a in a32]), dtype=np.float64)
+        for i in range(len(rl)):
+            if np.isneginf(rl[i]):
+                ok = lp[i] < -80  # impossible value: -inf (or the float32 rendering of log 0)
+            else:
+                ok = np.isfinite(lp[i]) and abs(lp[i] - rl[i]) <= 2e-3 + 3e-4 * abs(rl[i])
+            if not ok:
+                v = (vals if vals != "q" else xs.tolist())[i]
+                fails.append((f"logpdf_edge:{name}", f"{name}{tuple(args)} log density at {v} = {lp[i]:.7g}; the documented parameterisation gives {rl[i]:.7g}"))
+                break
+        # certain outcomes are always drawn
+        if vals != "q" and not fails:
+            pm = np.exp(rl)
+            if pm.max() > 1 - 1e-6:
+                want = np.asarray(vals)[int(np.argmax(pm))]
+                x = np.asarray(impl(seed(lambda: dist.sample(*[jnp.asarray(a) for a in a32], sample_shape=(64,))), env.key(77, idx)))
+                if not np.all(x.astype(np.float64) == float(want)):
+                    fails.append((f"sampler_edge:{name}", f"{name}{tuple(args)} has a certain outcome {want} but the sampler returned {np.unique(x).tolist()}"))
+    except ImplError as ex:
+        fails.append((f"raises_edge:{ex.sig()}:{name}", f"{name}{tuple(args)}: {ex}"))
+    return fails, case
 
 
 def cases():
@@ -120,6 +197,14 @@ def draw_samples(dist, args, kw, mode, n, key, event_ndim=0):
             return seed(modular_vmap(lambda *a: dist.sample(**dict(zip(names, a))), in_axes=0))(key, *tiled)
         tiled = [jnp.broadcast_to(a, (n,) + jnp.shape(a)) for a in jargs]
         return seed(modular_vmap(lambda *a: dist.sample(*a), in_axes=0))(key, *tiled)
+    if mode == "vmap_mapped_params_ss":
+        # lanes x per-lane sample_shape: documented layout (lanes, SS_K) + event; flattened to n draws of one law
+        m = n // SS_K
+        tiled = [jnp.broadcast_to(a, (m,) + jnp.shape(a)) for a in jargs]
+        x = seed(modular_vmap(lambda *a: dist.sample(*a, sample_shape=(SS_K,)), in_axes=0))(key, *tiled)
+        if x.shape[:2] != (m, SS_K):
+            return x  # wrong layout: reported by the shape test of the caller
+        return x.reshape((m * SS_K,) + x.shape[2:])
     if mode == "kwargs":
         if kw is None:
             return seed(lambda: dist.sample(*jargs, sample_shape=(n,)))(key)
@@ -144,6 +229,8 @@ def classify(case, ctx=None, n1=4000):
 
     def sample_test(dist, args, kw, cdf=None, pmf=None, lo=0, transform=None, want_dtype=None, event_shape=()):
         def pfun(n, stage):
+            if mode == "vmap_mapped_params_ss":
+                n = (n // SS_K) * SS_K + (SS_K if (n // SS_K) == SS_K else 0)
             x = np.asarray(impl(draw_samples, dist, args, kw, mode, n, env.key(case["key"], stage)))
             if x.shape != (n,) + tuple(event_shape):
                 return 0.0, {"shape": list(x.shape), "want": [n] + list(event_shape)}
@@ -336,6 +423,14 @@ def run_shard(ctx):
             ctx.fail(b, w, case)
 
     drive(ctx, cases(), P["n_cases"], one, "main")
+    # parameters at the edge of the documented domain: deterministic sweep, shard-partitioned
+    for i in range(len(EDGE)):
+        if i % ctx.nshards == ctx.shard:
+            env.reset()
+            fails, ecase = edge_check(i)
+            ctx.case(ecase, True, ["C13.edge_of_domain", f"C13.dist_{ecase['dist']}"], sample=ecase, key=("edge", i))
+            for b, w in fails:
+                ctx.fail(b, w, ecase)
     # make sure every distribution is visited in every run (one fixed-parameter case each, shard-partitioned)
     names = sorted(table()) + MULTI + WRAPPED
     defaults = {"loc": 0.7, "pos": 1.3, "pos1": 0.6, "pos2": 2.5, "df": 4.5, "prob": 0.3, "logit": -0.8, "rate": 2.5, "power": 2.6, "count": 7,
@@ -357,4 +452,6 @@ def run_shard(ctx):
 
 
 def replay(case):
+    if case.get("mode") == "edge_logpdf":
+        return edge_check(case["edge"])[0]
     return classify(case, None, 4000)[0]
